@@ -106,6 +106,7 @@ CHECKS = {
         "parts": [
             {"test": "TestC14", "quick": 60000, "thorough": 300000, "shards": 16, "quick_shards": 2},
             {"test": "TestC14ManyGroups", "rapid": False, "quick": 0, "thorough": 0, "shards": 1},
+            {"test": "TestC14Counts", "rapid": False, "quick": 0, "thorough": 0, "shards": 1},
         ],
         "assumptions": ["conventional rule for references: a group keeps its last participating value; a reference evaluated before its group participated is engine specific -> discarded and counted",
                         "K4 (capturing group under a quantifier with min >= 1 or max = 0) and K5 (numbered reference in a regex with named groups) excluded by construction and counted"],
